@@ -7,6 +7,7 @@ import (
 	"encoding/binary"
 	"errors"
 	"fmt"
+	"math/bits"
 	"sort"
 	"testing"
 
@@ -46,11 +47,27 @@ func payload(n, seed int) []byte {
 	return b
 }
 
-const overhead = 4 + 1 + 8 + 2 + 4 // prefix (sig, version, header addr, 2-byte block offset) + checksum, 8-byte file offsets
+// offSize is the width of heap offsets for a heap whose first block has the given size: the heap address space is 16 bits, or as many
+// bits as the block needs when it is larger than 64 KiB (format: offset size = ceil(max heap size bits / 8)).
+func offSize(block uint64) int {
+	if block <= 1<<16 {
+		return 2
+	}
+	return (bits.Len64(block-1) + 7) / 8
+}
+
+// overheadOf: prefix (sig, version, 8-byte header addr, block offset) + checksum.
+func overheadOf(block uint64) int { return 4 + 1 + 8 + offSize(block) + 4 }
+
+const maxManaged = 65536
 
 func genCase(t *rapid.T) Case {
-	c := Case{BlockSize: rapid.SampledFrom([]uint64{512, 512, 4096, 4096, 65536}).Draw(t, "block")}
-	usable := int(c.BlockSize) - overhead
+	c := Case{BlockSize: rapid.SampledFrom([]uint64{512, 512, 512, 4096, 4096, 4096, 65536, 65536, 131072, 524288}).Draw(t, "block")}
+	usable := int(c.BlockSize) - overheadOf(c.BlockSize)
+	maxOps := vt.N(40, 100)
+	if c.BlockSize > 65536 {
+		maxOps = 24 // every step re-reads all live bytes
+	}
 	cross := rapid.IntRange(0, 9).Draw(t, "cross") == 0 // one case in ten is allowed to aim beyond the first block
 	sizeGen := rapid.OneOf(
 		rapid.IntRange(1, 24),
@@ -59,6 +76,11 @@ func genCase(t *rapid.T) Case {
 	)
 	if cross {
 		sizeGen = rapid.OneOf(rapid.IntRange(1, 64), rapid.IntRange(1, usable/4+1), rapid.IntRange(1, usable))
+	}
+	if c.BlockSize > 65536 {
+		// objects up to and at the largest managed size; offsets beyond 65535 need a few of them
+		big := rapid.OneOf(rapid.IntRange(maxManaged-3, maxManaged), rapid.Just(maxManaged), rapid.IntRange(20000, maxManaged))
+		sizeGen = rapid.OneOf(rapid.IntRange(1, 64), big, big)
 	}
 	opGen := rapid.Custom(func(t *rapid.T) Op {
 		k := rapid.SampledFrom([]string{"ins", "ins", "ins", "ins", "insfill", "get", "over", "over", "overbad", "del", "del", "writeload", "writeat", "empty", "toolarge"}).Draw(t, "k")
@@ -78,7 +100,7 @@ func genCase(t *rapid.T) Case {
 		}
 		return op
 	})
-	c.Ops = rapid.SliceOfN(opGen, 1, vt.N(40, 100)).Draw(t, "ops")
+	c.Ops = rapid.SliceOfN(opGen, 1, maxOps).Draw(t, "ops")
 	return c
 }
 
@@ -89,9 +111,9 @@ type obj struct {
 
 // simulate computes labels without touching the library.
 func classify(c Case) (bool, []string) {
-	usable := int(c.BlockSize) - overhead
+	usable := int(c.BlockSize) - overheadOf(c.BlockSize)
 	used, live := 0, 0
-	crossed, near, mid := false, false, false
+	crossed, near, mid, maxObj, far := false, false, false, false, false
 	for i, op := range c.Ops {
 		switch op.K {
 		case "ins", "insfill":
@@ -101,10 +123,19 @@ func classify(c Case) (bool, []string) {
 				if sz < 1 {
 					sz = 1
 				}
+				if sz > maxManaged {
+					sz = maxManaged
+				}
 			}
 			if used+sz > usable {
 				crossed = true
 			} else {
+				if sz == maxManaged {
+					maxObj = true
+				}
+				if used > 65535 {
+					far = true
+				}
 				used += sz
 				live++
 			}
@@ -127,7 +158,13 @@ func classify(c Case) (bool, []string) {
 	if mid {
 		labels = append(labels, "mid_write_load")
 	}
-	return near || mid || crossed, labels
+	if maxObj {
+		labels = append(labels, "object_of_max_managed_size")
+	}
+	if far {
+		labels = append(labels, "object_at_offset>65535")
+	}
+	return near || mid || crossed || maxObj || far, labels
 }
 
 func run(c Case) vt.Verdict {
@@ -136,10 +173,11 @@ func run(c Case) vt.Verdict {
 	file := memf.New(128)
 	file.Data = make([]byte, 128)
 	var live []obj
-	usable := int(c.BlockSize) - overhead
-	used := 0          // model: bytes consumed in the direct block (space is never reused)
+	usable := int(c.BlockSize) - overheadOf(c.BlockSize)
+	osz := offSize(c.BlockSize)
+	used := 0            // model: bytes consumed in the direct block (space is never reused)
 	var liveBytes uint64 // model: sum of live sizes
-	indirect := false  // model: the heap was asked to grow beyond its first direct block
+	indirect := false    // model: the heap was asked to grow beyond its first direct block
 	var hdrAddr uint64
 	loaded := false
 
@@ -175,8 +213,8 @@ func run(c Case) vt.Verdict {
 				v := fail(step, op, "heap id %x is not an 8-byte managed id", o.id)
 				return &v
 			}
-			off := uint64(binary.LittleEndian.Uint16(o.id[1:3]))
-			ln := uint64(o.id[3]) | uint64(o.id[4])<<8 | uint64(o.id[5])<<16
+			off := leUint(o.id[1 : 1+osz])
+			ln := leUint(o.id[1+osz : 1+osz+3])
 			if ln != uint64(len(o.data)) {
 				v := fail(step, op, "heap id %x encodes length %d, stored %d", o.id, ln, len(o.data))
 				return &v
@@ -258,8 +296,8 @@ func run(c Case) vt.Verdict {
 		}
 		if !indirect {
 			for _, o := range live {
-				off := int(binary.LittleEndian.Uint16(o.id[1:3]))
-				s := 15 + off
+				off := int(leUint(o.id[1 : 1+osz]))
+				s := 13 + osz + off
 				if s+len(o.data) > len(blk)-4 || !bytes.Equal(blk[s:s+len(o.data)], o.data) {
 					v := fail(step, op, "image bytes of object id %x (offset %d, %d bytes) differ from the stored bytes or run into the checksum", o.id, off, len(o.data))
 					return &v
@@ -286,6 +324,9 @@ func run(c Case) vt.Verdict {
 			}
 			if sz < 1 {
 				sz = 1
+			}
+			if sz > maxManaged {
+				sz = maxManaged // larger objects are "huge" objects, which the writer refuses (op toolarge)
 			}
 			data := payload(sz, op.Seed+step)
 			fits := used+sz <= usable
@@ -415,6 +456,14 @@ func diffSnap(a, b snap) string {
 		return "block structure changed"
 	}
 	return ""
+}
+
+func leUint(b []byte) uint64 {
+	var v uint64
+	for i := len(b) - 1; i >= 0; i-- {
+		v = v<<8 | uint64(b[i])
+	}
+	return v
 }
 
 func firstDiff(a, b []byte) int {
